@@ -31,6 +31,8 @@ pub trait Ser: Clone + std::fmt::Debug + Serialize + DeserializeOwned {
     fn stats(&self) -> Vec<String>;
     /// observations that sit on decision boundaries of this state (histogram edges and their neighbours)
     fn probes(&self) -> Vec<f64> { Vec::new() }
+    /// an in-place operation other than add / merge, where the type has one (histograms: `*= k`)
+    fn tweak(&mut self, _k: u64) {}
 }
 
 macro_rules! ser_est {
@@ -52,7 +54,7 @@ macro_rules! ser_pair {
         impl Ser for $t {
             const NAME: &'static str = <$t as crate::props_pair::PairEst>::NAME;
             fn fresh(_: &mut Rng) -> Self { <$t>::new() }
-            fn step(&mut self, x: f64, w: f64) { crate::props_pair::PairEst::add(self, x, if <$t as crate::props_pair::PairEst>::NAME == "Covariance" { w } else { w.abs() }) }
+            fn step(&mut self, x: f64, w: f64) { crate::props_pair::PairEst::add(self, x, w) }
             fn merge_with(&mut self, o: &Self) -> bool { Merge::merge(self, o); true }
             fn stats(&self) -> Vec<String> { crate::props_pair::PairEst::accessors(self).iter().map(|a| format!("{}={}", a.op, a.val.word())).collect() }
         }
@@ -72,6 +74,7 @@ macro_rules! ser_hist {
         impl Ser for $t {
             const NAME: &'static str = <$t as Hst>::NAME;
             fn probes(&self) -> Vec<f64> { crate::props_hist::samples_for_pub(&self.ranges_()).into_iter().filter(|x| !x.is_nan()).collect() }
+            fn tweak(&mut self, k: u64) { *self *= k; }
             fn fresh(rng: &mut Rng) -> Self { if rng.unit() < 0.4 { let (a, b) = *rng.pick(&[(-3.0, 3.0), (1.0, 2.0), (0.0, 0.7), (-1e-3, 1e3), (0.1, 0.3)]); <$t>::with_const_width(a, b) } else if rng.unit() < 0.4 {
                 // repeated edges (empty bins) are valid histograms too
                 let mut e: Vec<f64> = (0..=<$t as Hst>::LEN).map(|_| (rng.below(5) as f64 - 2.0) * 0.5).collect(); e.sort_by(|a, b| a.partial_cmp(b).unwrap()); <$t>::from_ranges(e).unwrap() } else { let mut e: Vec<f64> = (0..=<$t as Hst>::LEN).map(|_| rng.normal() * 2.0).collect(); e.sort_by(|a, b| a.partial_cmp(b).unwrap()); <$t>::from_ranges(e).unwrap() } }
@@ -183,8 +186,10 @@ fn c18_for<T: Ser>(out: &mut Out, tier: &str, rng: &mut Rng) {
             5 => { for x in xs.iter_mut() { *x = rng.normal() * 1e140; } }
             _ => {}
         }
-        let mut ws: Vec<f64> = (0..n).map(|_| rng.unit() * 3.0).collect();
+        let mut ws: Vec<f64> = (0..n).map(|_| rng.unit() * 3.0).collect();   // (non-negative unless a case below says otherwise)
         // second coordinates exactly on a line through the first ones / all equal (degenerate pair statistics)
+        // (weights of either sign whose running sum returns to exactly zero: a state too, and it must survive)
+        if rep % 5 == 4 { for i in 0..n { ws[i] = if i % 2 == 0 { 1.5 } else { -1.5 }; } }
         match rep % 5 { 1 => { for i in 0..n { ws[i] = xs[i]; } } 2 => { for i in 0..n { ws[i] = 3.0 - 2.0 * xs[i]; } } 3 => { for w in ws.iter_mut() { *w = 1.0; } } _ => {} }
         let base = T::fresh(rng);
         // states with decision boundaries (histograms): observations on and next to the boundaries
@@ -197,7 +202,8 @@ fn c18_for<T: Ser>(out: &mut Out, tier: &str, rng: &mut Rng) {
         // uninterrupted run
         let merge_at = rng.below(n + 1);
         let mut plain = base.clone();
-        for i in 0..n { if i == merge_at { plain.merge_with(&other); } plain.step(xs[i], ws[i]); }
+        let tweak_at = if rep % 2 == 0 { rng.below(n + 1) } else { n + 7 };
+        for i in 0..n { if i == merge_at { plain.merge_with(&other); } if i == tweak_at { plain.tweak(3); } plain.step(xs[i], ws[i]); }
         if merge_at == n { plain.merge_with(&other); }
         // every checkpoint position 0..n
         let stride = if n > 20 { 1 + n / 12 } else { 1 };
@@ -210,6 +216,7 @@ fn c18_for<T: Ser>(out: &mut Out, tier: &str, rng: &mut Rng) {
                     if T::NAME != "Quantile" { if let Some(o2) = round_trip(out, &other) { let _ = o2; } }
                 }
                 if i == merge_at { e.merge_with(&other); }
+                if i == tweak_at && i < n { e.tweak(3); }
                 if i < n { e.step(xs[i], ws[i]); }
             }
             if restored.is_some() {
